@@ -29,11 +29,13 @@ use crate::ExecutionControlFlow;
 
 type Sh = Shell<extensions::DefaultShellExtensions>;
 
-pub struct POracle { pub flow: u8, pub handler_exits: Option<u8>, pub has_err_trap: bool, pub code: u8, pub stage_flag: Option<bool>, pub err_traps: u8, pub status_at_trap: u8, pub spawned: u8, pub waited: u8, pub trap_clobbers: u8 }
+pub struct POracle { pub errexit_after: Option<bool>, pub flow: u8, pub handler_exits: Option<u8>, pub has_err_trap: bool, pub code: u8, pub stage_flag: Option<bool>, pub err_traps: u8, pub status_at_trap: u8, pub spawned: u8, pub waited: u8, pub trap_clobbers: u8 }
 impl POracle {
     fn spawn(&mut self, p: &ExecutionParameters) -> Result<u8, error::Error> { self.spawned += 1; self.stage_flag = Some(p.suppress_errexit); Ok(0) }
     fn wait(&mut self, _r: u8, shell: &mut Sh) -> Result<ExecutionResult, error::Error> {
         self.waited += 1; shell.set_last_exit_status(self.code); let mut r = ExecutionResult::new(self.code);
+        // the command itself may switch errexit (`f() { set -e; return 3; }; f`): what counts is the option when the pipeline ends
+        if let Some(v) = self.errexit_after { shell.options_mut().exit_on_nonzero_command_exit = v; }
         // what the last stage asked for: 0 nothing, 1 exit, 2 return, 3 break, 4 continue
         r.next_control_flow = match self.flow { 1 => ExecutionControlFlow::ExitShell, 2 => ExecutionControlFlow::ReturnFromFunctionOrScript, 3 => ExecutionControlFlow::BreakLoop { levels: 0 }, 4 => ExecutionControlFlow::ContinueLoop { levels: 0 }, _ => ExecutionControlFlow::Normal };
         Ok(r)
@@ -55,19 +57,23 @@ fn t_pipeline(this: &ast::Pipeline, shell: &mut Sh, params: &ExecutionParameters
 #[kani::stub(std::time::SystemTime::now, crate::vk_prelude::stub_now)]
 fn vk_c03_pipeline_errexit() {
     let mut shell: Sh = Shell::default();
-    let errexit: bool = kani::any();
-    shell.options_mut().exit_on_nonzero_command_exit = errexit;
+    let errexit_before: bool = kani::any();
+    shell.options_mut().exit_on_nonzero_command_exit = errexit_before;
+    // the command may toggle the option while it runs
+    let errexit_after: Option<bool> = if kani::any() { Some(kani::any()) } else { None };
+    let errexit = errexit_after.unwrap_or(errexit_before);
     let has_err_trap: bool = kani::any();
     let mut params = ExecutionParameters::default();
     let parent_flag: bool = kani::any();
     params.suppress_errexit = parent_flag;
     let bang: bool = kani::any();
     let p = ast::Pipeline { timed: None, bang, seq: Vec::new() };
-    let mut o = POracle { flow: 0, handler_exits: None, has_err_trap, code: kani::any(), stage_flag: None, err_traps: 0, status_at_trap: 0, spawned: 0, waited: 0, trap_clobbers: 0 };
+    let mut o = POracle { errexit_after, flow: 0, handler_exits: None, has_err_trap, code: kani::any(), stage_flag: None, err_traps: 0, status_at_trap: 0, spawned: 0, waited: 0, trap_clobbers: 0 };
     let r = vk_ok(t_pipeline(&p, &mut shell, &params, &mut o));
     let status = if bang { if o.code == 0 { 1 } else { 0 } } else { o.code };
     let should_exit = errexit && !bang && !parent_flag && status != 0;
     kani::cover!(should_exit, "errexit_fires");
+    kani::cover!(should_exit && !errexit_before, "errexit_switched_on_by_the_command_itself");
     kani::cover!(bang && o.code == 0 && errexit, "negated_success_fails_without_exit");
     kani::cover!(has_err_trap && !errexit && !bang && !parent_flag && status != 0, "err_trap_without_errexit");
     assert!(o.spawned == 1 && o.waited == 1, "C11.pipeline.spawn_then_wait_once");
@@ -206,7 +212,7 @@ fn exit_return_step(modulo_known: bool) {
     let p = ast::Pipeline { timed: None, bang, seq: Vec::new() };
     let flow: u8 = any_below(5);
     let handler_exits: Option<u8> = if kani::any() { Some(kani::any()) } else { None };
-    let mut o = POracle { flow, handler_exits, has_err_trap, code: kani::any(), stage_flag: None, err_traps: 0, status_at_trap: 0, spawned: 0, waited: 0, trap_clobbers: 0 };
+    let mut o = POracle { errexit_after: None, flow, handler_exits, has_err_trap, code: kani::any(), stage_flag: None, err_traps: 0, status_at_trap: 0, spawned: 0, waited: 0, trap_clobbers: 0 };
     let leaving = flow == 1 || flow == 2;
     // KNOWN FINDING D28 region: an `exit n` / `return n` request with n != 0 reaching a pipeline where the ERR trap would fire for a failure
     if modulo_known { kani::assume(!(leaving && has_err_trap && !bang && !parent_flag && o.code != 0)); }
